@@ -3,7 +3,7 @@
 From V.lib Require Import Base.
 From V.c13 Require Import C13Spec C13Model.
 From V.c17 Require Import C17Spec C17Model C17RbspProofs C17WriterProofs C17EbspProofs.
-From V.c17 Require Import C17TypedModel C17BitProofs C17TypedProofs.
+From V.c17 Require Import C17TypedModel C17BitProofs C17TypedProofs C17FswProofs C17ComposeProofs.
 
 (* the 0xFF-run code of payload type (Go uint accumulator) and payload size (uint32
    accumulator) decodes to the value and leaves the rest of the input untouched: every value
@@ -79,6 +79,15 @@ Theorem C17_timecode : forall cs,
 Proof. exact timecode_roundtrip. Qed.
 Print Assumptions C17_timecode.
 
+(* ... and the executable payload (ops through the C13 model of bits.FixedSliceWriter, FlushBits,
+   cut at the capacity Size()) is that bit-list form, so the round trip holds for it *)
+Theorem C17_timecode_exec : forall cs,
+  tc_canonical cs = true ->
+  tc_payload cs = tc_payload_spec cs /\
+  tc_decode (tc_payload cs) = Ok cs /\ lenN (tc_payload cs) = tc_size cs.
+Proof. exact timecode_exec. Qed.
+Print Assumptions C17_timecode_exec.
+
 Example C17_timecode_hyp :
   let cs := [mkClock true true 3 false true false 300 true 59 true 58 false 0 5 17;
              mkClock true false 0 true false false 25 false 1 false 2 false 3 0 0;
@@ -101,6 +110,13 @@ Theorem C17_pic_timing_avc : forall m,
   pt_decode (p_hrd m) (p_tolen m) (pt_payload_spec m) = Ok m /\ lenN (pt_payload_spec m) = pt_size m.
 Proof. exact pic_timing_roundtrip. Qed.
 Print Assumptions C17_pic_timing_avc.
+
+Theorem C17_pic_timing_avc_exec : forall m,
+  pt_canonical m = true ->
+  pt_payload m = pt_payload_spec m /\
+  pt_decode (p_hrd m) (p_tolen m) (pt_payload m) = Ok m /\ lenN (pt_payload m) = pt_size m.
+Proof. exact pic_timing_exec. Qed.
+Print Assumptions C17_pic_timing_avc_exec.
 
 Example C17_pic_timing_avc_hyp :
   let m := mkPT (Some (mkHrd 1000 2000 23 15 20)) 5 3
@@ -138,3 +154,23 @@ Example C17_passthrough_hyp :
   exists m, decode_registered [181; 0; 49; 71; 65; 57; 52; 3; 193; 255; 252; 148; 44; 255] = Ok m /\
             ps_kind m = KCea608 [148; 44] [].
 Proof. eexists. split; vm_compute; reflexivity. Qed.
+
+(* ---------------------------------------------------------------- typed messages inside a NAL unit *)
+(* a canonical typed message, as WriteSEIMessages sees it (Type(), Size(), Payload()), satisfies the
+   hypotheses of C17_list_roundtrip: Size() = |Payload()| < 2^32 and the payload is a byte string *)
+Theorem C17_typed_msgs_ok :
+  (forall cs, tc_canonical cs = true -> msg_ok (mkMsg 136 (tc_size cs) (tc_payload cs)) = true) /\
+  (forall m, pt_canonical m = true -> msg_ok (mkMsg 1 (pt_size m) (pt_payload m)) = true) /\
+  (forall m, msg_ok (mkMsg 137 mdcv_size (mdcv_payload m)) = true) /\
+  (forall m, msg_ok (mkMsg 144 cll_size (cll_payload m)) = true).
+Proof. exact typed_msgs_ok. Qed.
+Print Assumptions C17_typed_msgs_ok.
+
+(* end to end for the time code: between any other messages, written, extracted, decoded *)
+Theorem C17_timecode_in_nalu : forall cs pre post,
+  tc_canonical cs = true -> msgs_ok pre = true -> msgs_ok post = true ->
+  extract_sei_data (write_sei_messages (pre ++ mkMsg 136 (tc_size cs) (tc_payload cs) :: post))
+  = XOk (observed pre ++ (136, tc_payload cs) :: observed post)
+  /\ tc_decode (tc_payload cs) = Ok cs.
+Proof. exact timecode_in_nalu. Qed.
+Print Assumptions C17_timecode_in_nalu.
